@@ -282,8 +282,9 @@ def move_staticmethod_static_scope(source: str, preserve: Collection[str]) -> st
             )
 
             if core.match_template(node, template):
-                replacements[node] = ast.Name(
-                    id=moved_function_names[node.attr], ctx=node.ctx, lineno=node.lineno
+                replacements[node] = (
+                    (classdef.name, node.attr),
+                    ast.Name(id=moved_function_names[node.attr], ctx=node.ctx, lineno=node.lineno),
                 )
 
     if not name_replacements:
@@ -292,36 +293,72 @@ def move_staticmethod_static_scope(source: str, preserve: Collection[str]) -> st
     if len(name_replacements) != len(set(name_replacements.values())):
         return
 
+    # One transaction per function: its accesses are redirected if and only if it is moved.
     transaction = 0
-    for before, after in replacements.items():
-        yield before, after, transaction
-
-    transaction = 1
     for classdef in parsing.iter_classdefs(root):
         for funcdef in parsing.iter_funcdefs(classdef):
             new_name = name_replacements.get((classdef.name, funcdef.name))
             if new_name is None:
                 continue
 
+            transaction += 1
             staticmethod_decorators = set(_decorators_of_type(funcdef, "staticmethod"))
             static_names.add(new_name)
 
+            # Accesses in the function itself (recursion) are redirected in the copy that is moved
+            inside_funcdef = set(ast.walk(funcdef))
+            accesses_inside = {}
+            for before, (key, after) in replacements.items():
+                if key != (classdef.name, funcdef.name):
+                    continue
+                if before in inside_funcdef:
+                    accesses_inside[_get_span(before)] = after
+                else:
+                    yield before, after, transaction
+
+            # funcdef belongs to the tree cached by core.parse: the replacement is built from copies
+            funcdef_copy = _ReplaceSpans(accesses_inside).visit(copy.deepcopy(funcdef))
+            lineno = min(node.lineno for node in (classdef, *classdef.decorator_list))
+            decorator_list = [
+                dec_copy
+                for dec, dec_copy in zip(funcdef.decorator_list, funcdef_copy.decorator_list)
+                if dec not in staticmethod_decorators
+            ]
+            for dec in decorator_list:
+                # The position of a definition is that of its first decorator
+                dec.lineno = lineno
+                dec.col_offset = classdef.col_offset
+
             funcdef_static = ast.FunctionDef(
                 name=new_name,
-                args=funcdef.args,
-                body=funcdef.body,
-                decorator_list=[
-                    dec for dec in funcdef.decorator_list if dec not in staticmethod_decorators
-                ],
+                args=funcdef_copy.args,
+                body=funcdef_copy.body,
+                decorator_list=decorator_list,
                 type_params=[],
-                returns=funcdef.returns,
-                lineno=min(node.lineno for node in (classdef, *classdef.decorator_list)),
+                returns=funcdef_copy.returns,
+                lineno=lineno,
                 col_offset=classdef.col_offset,
             )
             yield funcdef, None, transaction
             yield None, funcdef_static, transaction
 
-            transaction += 1
+
+def _get_span(node: ast.AST) -> tuple:
+    return (node.lineno, node.col_offset, node.end_lineno, node.end_col_offset)
+
+
+class _ReplaceSpans(ast.NodeTransformer):
+    """Replace the nodes of a (copied) tree that are found at the given positions"""
+
+    def __init__(self, replacements) -> None:
+        self.replacements = replacements
+
+    def visit_Attribute(self, node: ast.Attribute) -> ast.AST:
+        replacement = self.replacements.get(_get_span(node))
+        if replacement is not None:
+            return replacement
+
+        return self.generic_visit(node)
 
 
 @processing.fix
